@@ -190,8 +190,21 @@ struct World
     // everything observable on a veteran must be bit-identical on a fresh twin built from the latest inputs
     void check_twin(Handle &H, const char *when, bool deep)
     {
-        std::unique_ptr<Spline> twin = prob::make_spline<Spline, DIM>(H.m);
         const Spline &a = *H.s;
+        // the veteran answers first; the twin is constructed only afterwards (constructing it first could refresh
+        // state that the library keeps outside the object, and hide that the veteran depended on it)
+        double vE = 0.0;
+        G vG;
+        Mat vPC;
+        Eigen::VectorXd vPT;
+        if (deep)
+        {
+            vE = a.getEnergy();
+            vG = a.getEnergyGrad();
+            vPC = a.getEnergyPartialGradByCoeffs();
+            vPT = a.getEnergyPartialGradByTimes();
+        }
+        std::unique_ptr<Spline> twin = prob::make_spline<Spline, DIM>(H.m);
         const Spline &b = *twin;
         const int N = H.m.N();
         if (H.held)
@@ -225,13 +238,14 @@ struct World
         SIM_CHECK(bitwise_equal_vec(ta.getBreakpoints(), a.getCumulativeTimes()), "trajectory_breakpoints", when << ": trajectory breakpoints are not the knot times");
         log_matrix(ctx, ta.getCoefficients());
         if (!deep) return;
-        SIM_CHECK(same_bits(a.getEnergy(), b.getEnergy()), "energy_vs_fresh", when << ": energy " << a.getEnergy() << " vs fresh " << b.getEnergy());
+        SIM_CHECK(same_bits(vE, b.getEnergy()), "energy_vs_fresh", when << ": energy " << vE << " vs fresh " << b.getEnergy());
         std::string where;
-        G ga = a.getEnergyGrad(), gb = b.getEnergyGrad();
-        SIM_CHECK(GO::equal(ga, gb, where), "energy_grad_vs_fresh", when << ": energy gradient field " << where << " differs from a fresh spline");
-        SIM_CHECK(bitwise_equal(a.getEnergyPartialGradByCoeffs(), b.getEnergyPartialGradByCoeffs()) &&
-                      bitwise_equal(a.getEnergyPartialGradByTimes(), b.getEnergyPartialGradByTimes()),
+        G gb = b.getEnergyGrad();
+        SIM_CHECK(GO::equal(vG, gb, where), "energy_grad_vs_fresh", when << ": energy gradient field " << where << " differs from a fresh spline");
+        SIM_CHECK(bitwise_equal(vPC, b.getEnergyPartialGradByCoeffs()) && bitwise_equal(vPT, b.getEnergyPartialGradByTimes()),
                   "partials_vs_fresh", when << ": energy partials differ from a fresh spline");
+        // and once more after the twin exists (both orders of construction and query)
+        SIM_CHECK(same_bits(a.getEnergy(), vE), "energy_changed_by_other_object", when << ": the energy of this spline changed when another spline was constructed");
         ctx.count("oracle.fresh_twin_deep");
     }
 
@@ -315,7 +329,7 @@ struct World
             fd[k] = d;
             gmax = std::max(gmax, fabsl(d));
         }
-        // Tolerance: 2e-5 relative to the component plus a tenth of the largest component, plus the rounding
+        // Tolerance: 3e-5 relative to the component plus a tenth of the largest component, plus the rounding
         // noise floor of the difference quotient itself (eps * |L| / step).  Measured worst ratio err/tol on the
         // pinned tree is recorded by the margin.* counters (two orders of magnitude of head-room).
         long double Labs = 0.0L;
@@ -332,7 +346,7 @@ struct World
         {
             long double err = fabsl((long double)g[k] - fd[k]);
             long double step = k < N ? 1e-3L * (long double)base.T[k] : 1.0L;
-            long double tol = 2e-5L * (fabsl(fd[k]) + 0.1L * scale) + 2e3L * (long double)DBL_EPSILON * Labs / step;
+            long double tol = 3e-5L * (fabsl(fd[k]) + 0.1L * scale) + 2e3L * (long double)DBL_EPSILON * Labs / step;
             double ratio = (double)(err / tol);
             if (ratio > worst) { worst = ratio; worst_k = k; }
             SIM_CHECK(err <= tol, "adjoint_vs_finite_difference",
@@ -431,9 +445,25 @@ struct World
                 Mat gdC;
                 Eigen::VectorXd gdT;
                 gen_upstream((uint64_t)o.I(1), (int)o.I(2), *H.s, H.m.N(), gdC, gdT);
+                std::string where;
+                if ((o.I(3) & 12) == 12)
+                {
+                    // in-place use: the caller's upstream duration gradient lives in the very struct that receives the result
+                    reused_out.times = gdT;
+                    H.s->propagateGrad(gdC, reused_out.times, reused_out);
+                    std::unique_ptr<Spline> tw = prob::make_spline<Spline, DIM>(H.m);
+                    G w2 = tw->propagateGrad(gdC, gdT);
+                    SIM_CHECK(GO::equal(reused_out, w2, where), "propagate_vs_fresh",
+                              "propagateGrad with the upstream duration gradient aliasing the output (field " << where << ") differs from the same call on a fresh spline with separate buffers; N=" << H.m.N());
+                    ctx.count("probe.propagate_in_place");
+                    break;
+                }
+                // the veteran propagates first; the twin is built afterwards
+                G got_first = H.s->propagateGrad(gdC, gdT);
                 std::unique_ptr<Spline> twin = prob::make_spline<Spline, DIM>(H.m);
                 G want = twin->propagateGrad(gdC, gdT);
-                std::string where;
+                SIM_CHECK(GO::equal(got_first, want, where), "propagate_vs_fresh",
+                          "propagateGrad field " << where << " differs from the same call on a spline constructed afterwards from the same inputs; N=" << H.m.N());
                 if (o.I(3) & 1)
                 {
                     // the caller's output struct comes back from earlier use with arbitrary contents
@@ -785,7 +815,7 @@ inline Plan gen_plan(uint64_t seed, uint64_t index, Tier tier, int profile)
             // growing and shrinking through 1 and 2, and 33 -> 2 -> 33
             if (r.chance(0.25)) o.i[1] = r.chance(0.5) ? 1 : 2;
             break;
-        case OP_PROPAGATE: o.i = {(int64_t)r.below(kHandles), (int64_t)r.below(1u << 30), (int64_t)r.below(6), (int64_t)r.below(4)}; break;
+        case OP_PROPAGATE: o.i = {(int64_t)r.below(kHandles), (int64_t)r.below(1u << 30), (int64_t)r.below(6), (int64_t)r.below(16)}; break;
         case OP_SAME_SPAN: o.i = {r.chance(0.75) ? 0 : (int64_t)r.below(kHandles), (int64_t)r.below(6), (int64_t)r.below(1u << 30), (int64_t)r.below(2)}; break;
         case OP_ENERGY: case OP_COEFFS: o.i = {(int64_t)r.below(kHandles)}; break;
         case OP_PARTIALS: o.i = {(int64_t)r.below(kHandles), (int64_t)r.below(4)}; break;
